@@ -22,6 +22,7 @@ def run_one(prop: str, tier: str, seed: int, prog=None, evidence_dir=None, quiet
     try:
         mod = importlib.import_module(f".rules.{prop.lower()}", package="pvlint")
         prog = prog or Program()
+        res.prog = prog
         res.units = len(prog.modules)
         res.functions = len(prog.functions)
         mod.run(prog, res)
